@@ -43,6 +43,21 @@ NEEDS_R2 = {
     "C31_r2m2": "a running eval with slow steps: flag checked every 10 000 ticks",
 }
 
+NEEDS_R3 = {
+    "C07_r3m1": "an interrupt landing while the session is stopped on a return-type error of a finished frame: a second check after the return value is popped reports Interrupted without pushing it back; later resumes report a different error",
+    "C07_r3m2": "the mistyped function called in STATEMENT position (value unused): the value is pushed back for :resume only if the caller uses it; the second resume pops an empty stack",
+    "C08_r3m1": "the interrupt observed exactly at the last step of the request's last toplevel expression (check moved after the step)",
+    "C08_r3m2": "a run request that names a file the session has not evaluated yet, interrupted inside a user function, then later toplevel code of the same request uses a definition of that file: the previous namespace is put back on error",
+    "C09_r3m1": "`for (a, b) in [(1, 2, 3)] { a }` then :resume: that error exit restores the loop's list and index swapped",
+    "C09_r3m2": "an interrupt read after :resume (or :skip/:replace/:test) was sent but before the eval thread starts it, the resumed evaluation being endless: the helper clears the flag before evaluating",
+    "C10_r3m1": "a stop in a frame of another namespace (None.or_throw() in the prelude), at least one expression evaluated while stopped, then :abort: the toplevel namespace switch no longer requires depth 1",
+    "C10_r3m2": "a stop inside a call made from a toplevel block with locals, then :abort: the innermost frame is cleaned instead of frame 0",
+    "C11_r3m1": "a method on an enum sent in an earlier request than the enum: methods kept only if the redefinition is the same kind of type",
+    "C11_r3m2": "a toplevel let, then a later request with a passing test definition, then a read of the variable: pop_to_toplevel rebuilds the stack and drops toplevel variables",
+    "C25_r3m1": "a `continue` executed while a later statement of the same body is a loop that has not started: native spin out of reach of the limits",
+    "C25_r3m2": "the tick limit already hit earlier in the same run, followed by another non-terminating unit of work: limit fires only at the exact tick",
+}
+
 NEEDS = {
     "C07_m1": "a user function with >= 2 type-hinted parameters called with an ill-typed argument (arguments not all equal), then :resume: check_param_types pushes the arguments back in call order instead of stack order",
     "C07_m2": "a return-type mismatch of a user function/method/closure (the only error that stops with an empty exprs_to_eval in a callee frame), then :resume: eval()'s nothing-pending shortcut no longer requires stack depth 1 and answers Unit",
@@ -79,7 +94,7 @@ NEEDS = {
     "C31_m3": "a running eval whose individual steps are slow: flag checked only every 1024 ticks",
 }
 
-HELPERS = ["jsdrive.py", "nrepl_lib.py", "run_nrepl_goldens.py", "check_nrepl_reftests.py", "m1_demo_tests.gdn", "m1_demo_playground.gdn",
+HELPERS = ["drv.py", "session.py", "jsdrive.py", "nrepl_lib.py", "run_nrepl_goldens.py", "check_nrepl_reftests.py", "m1_demo_tests.gdn", "m1_demo_playground.gdn",
            "m2_demo_tests.gdn", "m2_demo_playground.gdn", "sess.py", "gsession.py", "check_nrepl_interrupt.py", "jsession.py", "democheck.py", "c11_harness.py", "lspclient.py",
            "nrepl_client.py", "check_nrepl_goldens.py", "interrupt_eval_slow.jsonl"]
 
@@ -126,7 +141,7 @@ def main():
                 "property_title": props.get(pid),
                 "written_by": "a sub-agent that was given only the property text and its own scratch worktree",
                 "base_commit": base,
-                "needs_to_manifest": NEEDS.get(key) or NEEDS_R2.get(key, "see description.md"),
+                "needs_to_manifest": NEEDS.get(key) or NEEDS_R2.get(key) or NEEDS_R3.get(key, "see description.md"),
                 "demonstration": sorted(os.path.basename(f) for f in glob.glob(os.path.join(out, f"m{n}_demo*"))),
                 "confirmed_by_me": {
                     "how": "tools/confirm_seed.sh in the scratch worktree: clean build + demonstration, change applied + build + "
